@@ -39,6 +39,9 @@ def subgroup(D, name):
         return [g for g in G if all(g[i][j] == 0 for i in range(D) for j in range(D) if i != j)]
     if name == "trivial":
         return [g for g in G if all(g[i][i] == 1 for i in range(D))][:1]
+    if name == "inv":
+        # {I, -I}: the smallest non-trivial group -- cheap enough to reach large seed bases (M**D * D**k in the hundreds)
+        return [[[(1 if i == j else 0) * s for j in range(D)] for i in range(D)] for s in (1, -1)]
     if name == "C4" and D == 2:
         r = [[0, -1], [1, 0]]
         out = [[[1, 0], [0, 1]]]
@@ -465,8 +468,19 @@ def run(ctx):
                     if D == 3 and k > 1:
                         continue
                     jobs.append((ctx.repo, D, M, k, p, gname, cut_var, last + 1))
+    # large seed bases (M**D * D**k beyond 500 and 1000: any blocking / chunking of the seed set has to show here)
+    jobs.append((ctx.repo, 3, 4, 2, 0, "inv", cut_var, last + 1))
+    if th:
+        jobs.append((ctx.repo, 2, 5, 4, 1, "inv", cut_var, last + 1))
+        jobs.append((ctx.repo, 3, 5, 2, 1, "inv", cut_var, last + 1))
+        jobs.append((ctx.repo, 3, 3, 3, 0, "inv", cut_var, last + 1))
+        for gname in ("B", "rot", "C2"):
+            jobs.append((ctx.repo, 3, 4, 2, 0, gname, cut_var, last + 1))
+        jobs.append((ctx.repo, 3, 3, 3, 1, "B", cut_var, last + 1))
+        jobs.append((ctx.repo, 3, 4, 2, 1, "B:reversed", cut_var, last + 1))
+    jobs.sort(key=lambda j: -(j[2] ** j[1] * j[1] ** j[3]) * (48 if j[5].startswith("B") else 24 if j[5].startswith("rot") else 8 if j[5].startswith("C") else 2))
     by = {}
-    for job, r in ctx.pairs(worker, jobs):
+    for job, r in ctx.pairs(worker, jobs, chunk=1):
         cfg = r["cfg"]
         if cfg.get("rectify") == "undecided":
             ev.extra["rectify_undecided"] = True
